@@ -72,6 +72,8 @@ def _custom_check(pid, cfg, tier, seed):
     t0 = time.time()
     _fresh_library_build()
     rc = V.check(pid, cfg, tier, seed)              # dev profile (overflow checks on): proofs + correspondence + evidence
+    if os.environ.get("C08_SKIP_RELEASE"):        # (mutation runs: one profile is enough to see a catch)
+        return rc
     breaks, bad, stats = _release_round(pid, cfg, tier, seed)
     evp = os.path.join(V.EVID, "%s.json" % pid)
     ev = json.load(open(evp))
